@@ -419,6 +419,26 @@ class _SqlMod:
     def connect(self, path, *a, **kw):
         return _SqlConn(self.__dict__["_r"].connect(path, *a, **kw), os.path.basename(str(path)))
 
+class _CopyFaultShutil:
+    """bob.scm.url.shutil: the k-th copy2() writes only the first part of the data and then
+    fails with an errno (disk full, quota, I/O error) -- a short write of the fetch."""
+    def __init__(self, real):
+        self.__dict__["_r"] = real
+    def __getattr__(self, k):
+        return getattr(self.__dict__["_r"], k)
+    def copy2(self, src, dst, *a, **kw):
+        cf = SIM.cfg.get("copy_fault")
+        SIM.ncopy = getattr(SIM, "ncopy", 0) + 1
+        if cf and SIM.ncopy == cf.get("nth", 1):
+            import errno
+            with open(src, "rb") as f:
+                data = f.read()
+            with open(dst, "wb") as f:
+                f.write(data[:int(len(data) * cf.get("frac", 0.5))])
+            SIM.log("copy-fault-fired", SIM.ncopy, _rel(dst, SIM.root), cf.get("errno", "ENOSPC"))
+            raise OSError(getattr(errno, cf.get("errno", "ENOSPC")), "injected short write")
+        return self.__dict__["_r"].copy2(src, dst, *a, **kw)
+
 def install(cfg, logpath):
     """Rebind the seams (inside the forked child)."""
     global SIM
@@ -458,6 +478,10 @@ def install(cfg, logpath):
         for m in (bob.cmds.build.state, bob.input, bob.pathspec):
             if getattr(m, "sqlite3", None) is sqlite3:
                 m.sqlite3 = _SqlMod(sqlite3)
+    if cfg.get("copy_fault"):
+        import shutil, bob.scm.url
+        if getattr(bob.scm.url, "shutil", None) is shutil:
+            bob.scm.url.shutil = _CopyFaultShutil(shutil)
     hook = cfg.get("pre_hook")
     if hook:
         import importlib
